@@ -37,6 +37,8 @@ pub struct NodeHost {
     /// None = not comparable: chunk/scratchpad type, or a write of the key is in flight) taken at the
     /// moment the last TriggerIntervalReplication command was handled
     pub index_at_trigger: Vec<(Vec<u8>, String, Option<bool>)>,
+    /// every such snapshot of the run, oldest first (a list built at one trigger may be sent after a later trigger was handled)
+    pub index_at_triggers: Vec<Vec<(Vec<u8>, String, Option<bool>)>>,
 }
 
 pub fn custom_evm() -> EvmNetwork {
@@ -83,6 +85,7 @@ impl NodeHost {
             payments_notified: 0,
             other_cmds: vec![],
             index_at_trigger: vec![],
+            index_at_triggers: vec![],
         })
     }
 
@@ -113,6 +116,7 @@ impl NodeHost {
             snap.push((kb, format!("{ty:?}"), matches));
         }
         snap.sort();
+        self.index_at_triggers.push(snap.clone());
         self.index_at_trigger = snap;
     }
 
